@@ -12,7 +12,7 @@ TRUSTED_BASE = [
 LEVEL = {}
 
 # proof module per property when it is not LadimProofs/<id>.lean
-MODULES = {"C12": "C12Fjord", "C06": "C06Main"}
+MODULES = {"C12": "C12Fjord", "C06": "C06Main", "C13": "C13Buffer"}
 
 OBLIGATIONS = {
     "C05": [
@@ -146,5 +146,14 @@ OBLIGATIONS = {
         "C06.velocity_consecutive", "C06.updateRange_add", "C06.run_loop_eq_range", "C06.update_loop_eq_range",
         "C06.velocity_any_schedule", "C06.velocity_on_frame", "C06.scalar_on_frame", "C06.scalar_on_frame_t0", "C06.scalar_held",
         "C06.scalar_held_after_prestep", "C06.scalar_before_first_frame", "C06.lerpS_between", "C06.scalar_between",
+    ],
+    "C13": [
+        "C13.interp_is_lerp", "C13.interp_whole_hour", "C13.interp_between", "C13.backward_whole_hour_fails",
+        "C13.backward_is_mirrored", "C13.backward_differs", "C13.hour_fraction_range", "C13.hour_decomposition",
+        "C13.time_of_step", "C13.metric_index_in_range", "C13.raw_outermost_fails", "C13.z2k_monotone",
+        "C13.z2k_exact_first", "C13.z2k_tail", "C13.z2k_clamps_left",
+        "C13.lookup_assign_self", "C13.lookup_assign_other", "C13.valid_empty", "C13.valid_prune", "C13.get_push_self",
+        "C13.valid_push", "C13.contains_iff", "C13.getVar_transparent", "C13.getVar_reads_iff_miss", "C13.serve_of_valid",
+        "C13.buffer_transparent", "C13.push_two_live_frames",
     ],
 }
